@@ -196,7 +196,7 @@ def run(ctx):
     # ---- 4. trace validation (one TLC per component and shard, in parallel) ------------------------------------
     # Few, large trace files: all executions of one component (scripts and every random shard) are concatenated
     # and cut into chunks of at most CHUNK events - the JVM start dominates short validations.
-    CHUNK = 22000 if q else 40000
+    CHUNK = 9000 if q else 40000
     tasks = []
     for comp, mod in COMPS.items():
         execs = []
